@@ -124,14 +124,33 @@ fn run_case(
 fn configure_gen(prop: &str, g: &mut Gen) {
     match prop {
         // C03's oracle compares label values with the model: keep script label parsing (C14/C17) out
-        "C03" | "C04" => g.allow_script = false,
+        "C03" => {
+            g.allow_script = false;
+            if g.rng.chance(1, 2) {
+                g.add_noncanon_labels();
+            }
+        }
+        "C04" => g.allow_script = false,
+        "C02" => {
+            if g.rng.chance(1, 4) {
+                g.add_noncanon_labels();
+            }
+        }
         "C08" => {
+            if g.rng.chance(1, 2) {
+                g.add_noncanon_labels();
+            }
             g.boost_save = 6;
             if g.rng.chance(1, 2) {
                 g.allocator_ops_after = g.rng.range(10, 60);
             }
         }
-        "C10" => g.boost_clone = 6,
+        "C10" => {
+            g.boost_clone = 6;
+            if g.rng.chance(1, 2) {
+                g.add_noncanon_labels();
+            }
+        }
         _ => {}
     }
 }
